@@ -33,6 +33,11 @@ def run(res, tier, rng, table_diffs=()):
     for d in C05.DIRECTED:
         if len(d) < 5000:
             srcs.append(("directed", d))
+    from .. import gen2
+    for _ in range(500 if tier == "quick" else 10000):
+        srcs.append(("nested-fn", gen2.nested_fn_program(rng.fork())))
+    for _ in range(200 if tier == "quick" else 4000):
+        srcs.append(("fn-values", gen2.fnvalue_program(rng.fork())))
     comp = core.impl(["compile " + hx(s) for _, s in srcs])
     todo = [(lab, s, c) for (lab, s), c in zip(srcs, comp) if c.startswith("ok ")]
     res.coverage["sources_tried"] = len(srcs)
